@@ -577,3 +577,28 @@ Proof.
     change (if x64 then MODE_X64 else MODE_X86) with (mode_bit x64).
     eapply row_present_signature_stage; eauto.
 Qed.
+
+(* ------------------------------------------------------------------ the representative operands generated from a row validate (premises of db_row_validates derived by evaluation) *)
+Lemma rep_validates : forall T zq x64 row,
+  forallb (sig_wf T) (vt_isig T) = true -> row_present T row = true ->
+  test (dr_mode row) (mode_bit x64) = true -> rep_premises T x64 row = true ->
+  validate T zq x64 false {| vi_id := dr_inst row; vi_options := 0; vi_extra_type := 0; vi_extra_id := 0 |} (rep_ops x64 row) = E_Ok.
+Proof.
+  intros T zq x64 row WF P M R. unfold rep_premises in R.
+  destruct (nth (N.to_nat (dr_inst row)) (vt_inst T) (0, 0, 0, 0)) as [[[iflags avx] sidx] scnt] eqn:ROW.
+  destruct (xlat_all T x64 false avx (rep_ops x64 row) init_xstate) as [e|[st rest]] eqn:X; [discriminate|].
+  apply andb_true_iff in R. destruct R as [R MD]. apply andb_true_iff in R. destruct R as [G F]. apply N.eqb_eq in MD.
+  eapply (db_row_validates T zq x64 false row _ (rep_ops x64 row) iflags avx sidx scnt st rest WF P); eauto; cbn [vi_options vi_extra_type];
+  auto using lock_stage_plain, rep_stage_plain, evex_stage_plain, avx_stage_plain, extra_stage_none.
+Qed.
+
+Lemma rep_validates_both : forall T zq row,
+  forallb (sig_wf T) (vt_isig T) = true -> row_present T row = true -> rep_premises_both T row = true ->
+  forall x64, test (dr_mode row) (mode_bit x64) = true ->
+  validate T zq x64 false {| vi_id := dr_inst row; vi_options := 0; vi_extra_type := 0; vi_extra_id := 0 |} (rep_ops x64 row) = E_Ok.
+Proof.
+  intros T zq row WF P R x64 M. unfold rep_premises_both in R. apply andb_true_iff in R. destruct R as [R1 R2].
+  destruct x64; cbn [mode_bit] in M.
+  - rewrite M in R2. apply rep_validates; auto.
+  - rewrite M in R1. apply rep_validates; auto.
+Qed.
